@@ -54,6 +54,7 @@ const (
 
 // genCase draws a description (steer) and, for a drawn share, makes it one of the two classes above.
 func genCase(r *vf.Run, t *rapid.T, o sg.Opts) Case {
+	o.YAMLAnchors = true // user maps of x.yaml through anchors and merge keys (35% of the descriptions; anchors_test.go)
 	c := Case{Model: steer(r, t, o)}
 	if uniform(t, "no scenarios?", 100) < pctNoScenarios {
 		c.Model = withoutScenarios(c.Model)
